@@ -7,6 +7,9 @@
 (*                                getter returned, then re-read the machine   *)
 (*   help   {fn, sc, ret}         a wait/ask helper in a known scenario       *)
 (*   wait   {fn, chans, ctx, ret} WaitForAll / WaitForAny                     *)
+(*   async  {fn, sc, t0, te, t1, mut, expired, ret}  an async helper in one   *)
+(*                                scenario, with the ticks of the wait state  *)
+(*                                read from the machine                       *)
 (*   call   {fn, phase, cls, outcome}   one call of the totality sweep        *)
 (* `viol`  = the property's formula is FALSE on the logged values (verdict),  *)
 (* `drift` = the logged value matches neither the as-found nor the repaired   *)
@@ -100,6 +103,27 @@ EvWait ==
   /\ l' = l + 1
   /\ UNCHANGED <<drift, mach>>
 
+(* the law is judged on the ticks the real machine showed, what happened to   *)
+(* the helper's mutation (seen by a tracer) and what the helper answered; the *)
+(* step model of the code must be able to produce the same answer and leave   *)
+(* the same tick behind                                                       *)
+EvAsync ==
+  /\ Trace[l].ev = "async"
+  /\ LET x == Trace[l]
+         sc == x.sc
+         cancel == sc.mode = "disposed" \/ (sc.mode = "direct" /\ x.mut = "refused")
+         o == [t0 |-> x.t0, t1 |-> x.t1, te |-> x.te, cancel |-> cancel, expired |-> x.expired]
+         known == x.fn \in AsyncFns /\ sc \in AsyncScenarios
+         conf == /\ known
+                 /\ x.t0 = AsyncInit("bind-mutate", sc).t0
+                 /\ <<x.ret, x.t1>> \in AsyncOutcomes("bind-mutate", sc)
+     IN /\ viol' = IF AsyncLaw(sc, o, x.ret) THEN viol ELSE viol \cup {<<l, "async:" \o x.fn>>}
+        /\ drift' = IF conf THEN drift ELSE drift \cup {<<l, "code:" \o x.fn>>}
+        /\ stats' = [stats EXCEPT !.help = @ + 1,
+                                  !.async = IF known THEN @ \cup {sc} ELSE @]
+  /\ l' = l + 1
+  /\ UNCHANGED mach
+
 (* ---- totality -------------------------------------------------------------*)
 EvCall ==
   /\ Trace[l].ev = "call"
@@ -118,6 +142,8 @@ Done ==
                                 alg |-> stats.alg, copy |-> stats.copy, help |-> stats.help,
                                 calls |-> stats.calls, cells |-> Cardinality(stats.cells),
                                 allcells |-> Cardinality(Phases \X ArgClasses),
+                                asyncsc |-> Cardinality(stats.async),
+                                asyncall |-> Cardinality(AsyncScenarios),
                                 onlyAsFound |-> stats.onlyAsFound,
                                 onlyFixed |-> stats.onlyFixed])>>)
   /\ l' = l + 1
@@ -125,12 +151,12 @@ Done ==
 
 TraceInit ==
   /\ l = 1 /\ viol = {} /\ drift = {} /\ mach = [none |-> TRUE]
-  /\ stats = [alg |-> 0, copy |-> 0, help |-> 0, calls |-> 0, cells |-> {},
+  /\ stats = [alg |-> 0, copy |-> 0, help |-> 0, calls |-> 0, cells |-> {}, async |-> {},
               onlyAsFound |-> 0, onlyFixed |-> 0]
 
 TraceNext ==
   \/ /\ l <= Len(Trace)
-     /\ (EvAlg \/ EvSnap \/ EvMutRet \/ EvHelp \/ EvWait \/ EvCall)
+     /\ (EvAlg \/ EvSnap \/ EvMutRet \/ EvHelp \/ EvWait \/ EvAsync \/ EvCall)
   \/ Done
 
 TraceSpec == TraceInit /\ [][TraceNext]_tvars
